@@ -317,6 +317,7 @@ def run(ctx):
     rep.rule('R4.1', 'decision table of Comparable.__lt__/__eq__ over 12x12 type classes x wrapped/unwrapped equals the stated preorder; strict-weak-order laws hold on the table')
     rep.rule('R4.2', 'derived operators: __le__ = lt or eq, __gt__ = not(lt or eq), __ge__ = not lt; _Keyed applies the namesake operator to .key only')
     rep.rule('R4.3', 'ordering provenance: operands / sort keys of every ordering site in scope are Comparable (or integral)')
+    rep.rule('R4.4', 'key extraction is positional: comparable_itemgetter / _itemgetter_with_default build one key component per requested position, in the requested order, None for a missing cell')
     rep.assumptions = ['inside one comparable family Python\'s native < is a strict total order consistent with == (no NaN)',
                        'native cross-family < raises TypeError in Python 3 (incl. date vs datetime)',
                        'bool is a subclass of int, datetime of date; numeric_types/text_type/binary_type as in petl.compat (py3 branch)']
@@ -324,6 +325,7 @@ def run(ctx):
     r41(ctx, rep)
     r42(ctx, rep)
     r43(ctx, rep)
+    r44(ctx, rep)
 
 
 # ------------------------------------------------------------------------ R4.1
@@ -675,3 +677,79 @@ def r43(ctx, rep):
                                                  'compared natively (TypeError on None / mixed types, different order)'
                                                  % fmt_value(val), ev.node)
     ctx.floor('ordering_sites', n_sites, 30)
+
+
+# ------------------------------------------------------------------------ R4.4
+def r44(ctx, rep):
+    """A compound key is compared component by component, so component i must
+    be the cell at the i-th requested position (None when the row is too
+    short).  Decided on the shape of the two getter factories: whatever
+    iterates over the requested positions does so over the varargs unchanged,
+    unfiltered, and the default for a missing cell is None."""
+    import ast
+    from ..loader import norm, own_nodes
+    n = 0
+    for fq in ('petl.comparison:comparable_itemgetter', 'petl.comparison:_itemgetter_with_default'):
+        fn = ctx.project.need_fn(fq)
+        va = fn.node.args.vararg
+        if va is None:
+            rep.undecided('R4.4', fn, 'def ' + fn.name, 'no *args parameter', fn.node)
+            continue
+        A = va.arg
+        nodes = list(ast.walk(fn.node))
+        uses = 0
+        for node in nodes:
+            # iteration over the positions
+            gens = []
+            if isinstance(node, (ast.GeneratorExp, ast.ListComp, ast.SetComp, ast.DictComp)):
+                gens = [(g.iter, g.ifs, node) for g in node.generators]
+            elif isinstance(node, ast.For):
+                conditional = [x for b in node.body for x in ast.walk(b)
+                               if isinstance(x, ast.If) and not x.orelse and
+                               any(isinstance(y, ast.Call) and isinstance(y.func, ast.Attribute) and
+                                   y.func.attr in ('append', 'extend', 'add') for z in x.body for y in ast.walk(z))]
+                gens = [(node.iter, conditional, node)]
+            for it, ifs, where in gens:
+                names = {x.id for x in ast.walk(it) if isinstance(x, ast.Name)}
+                if A not in names:
+                    continue
+                uses += 1
+                n += 1
+                construct = 'positions: %s' % norm(where)[:70]
+                plain = norm(it) in (A, 'enumerate(%s)' % A, 'range(len(%s))' % A)
+                if isinstance(where, ast.SetComp) or not plain:
+                    rep.violated('R4.4', fn, construct,
+                                 'the key components are produced by iterating over `%s`, not over the requested '
+                                 'positions in their order: component i is no longer the cell at position i' % norm(it), where)
+                elif ifs:
+                    rep.violated('R4.4', fn, construct,
+                                 'positions are filtered (`%s`) while the key is built: for a short row the cells that '
+                                 'are present move up and the None of a missing cell no longer sits in its own '
+                                 'component, so rows are ordered by the wrong field' %
+                                 norm(ifs[0] if not isinstance(ifs[0], ast.If) else ifs[0].test), where)
+                else:
+                    rep.held('R4.4', fn, construct, 'one component per position, in order, unfiltered', where)
+            # *args handed on
+            if isinstance(node, ast.Call):
+                for a in node.args:
+                    if isinstance(a, ast.Starred):
+                        names = {x.id for x in ast.walk(a.value) if isinstance(x, ast.Name)}
+                        if A in names:
+                            uses += 1
+                            n += 1
+                            if norm(a.value) == A:
+                                rep.held('R4.4', fn, '%s(*%s)' % (norm(node.func), A), 'positions handed on unchanged', node)
+                            else:
+                                rep.violated('R4.4', fn, '%s(*%s)' % (norm(node.func), norm(a.value)),
+                                             'the requested positions are handed on as `%s`, not unchanged' % norm(a.value), node)
+                for k in node.keywords:
+                    if k.arg == 'default':
+                        n += 1
+                        if isinstance(k.value, ast.Constant) and k.value.value is None:
+                            rep.held('R4.4', fn, '%s(..., default=None)' % norm(node.func), '', node)
+                        else:
+                            rep.violated('R4.4', fn, '%s(..., default=%s)' % (norm(node.func), norm(k.value)),
+                                         'a missing cell must be ordered as None (lowest), not as %s' % norm(k.value), node)
+        if not uses:
+            rep.undecided('R4.4', fn, 'def ' + fn.name, 'the positions `%s` are never iterated or handed on' % A, fn.node)
+    ctx.floor('key_getter_sites', n, 3)
